@@ -38,6 +38,12 @@ def main(argv):
             mod.run(ctx)
     except BaseException:
         ctx.harness_error("worker top level")
+    try:
+        from . import gen as _gen
+        for k, v in _gen.SLICES.items():
+            ctx.count(k, v)
+    except Exception:  # noqa
+        pass
     res.update(ctx.result())
     with open(out, "w") as f:
         json.dump(res, f)
